@@ -283,6 +283,51 @@ def finder_evidence(f, partner):
     return None
 
 
+def needle_match_evidence(f, idx_op):
+    """the offset is `P + memstr(&bytes[P..], needle.as_bytes()) (+ needle.len())`: the absolute position of a `str` needle
+    found by a byte search in the bytes of a `str` (plus the needle's length).  UTF-8 is self-synchronising - the first byte
+    of a valid needle is never a continuation byte - so a match starts and ends on character boundaries wherever the search
+    started (even one byte past a rejected candidate)."""
+    def split_add(op):
+        out = []
+        for o in (flow.origins(f, op) if "c" not in op else []):
+            if o.kind == "bin" and o.rv["op"] in ("Add", "AddWithOverflow", "AddUnchecked"):
+                out.append((o.rv["a"], o.rv["b"]))
+        return out
+
+    def is_match_sum(a, b):
+        for (p_, r_) in ((a, b), (b, a)):
+            if "c" in r_ or "c" in p_:
+                continue
+            for o in flow.origins(f, r_):
+                if o.kind == "call" and o.call.name.rsplit("::", 1)[-1] in ("memstr",) and len(o.call.args) == 2:
+                    nd = [q for q in flow.origins(f, o.call.args[1]) if q.kind == "call" and q.call.name.endswith("str>::as_bytes")]
+                    hs = flow.origins(f, o.call.args[0], through_calls=lambda k: 0 if k.name.endswith(("::index", "::deref")) else None)
+                    if nd and any(q.kind == "call" and (q.call.name.endswith("::rest_bytes") or q.call.name.endswith("str>::as_bytes")) for q in hs):
+                        return True
+        return False
+    for (a, b) in split_add(idx_op):
+        if is_match_sum(a, b):
+            return "absolute position of a str needle found by memstr (UTF-8 is self-synchronising)"
+        # (P + match) + needle.len()
+        for (x, y) in ((a, b), (b, a)):
+            if "c" in y:
+                continue
+            if any(o.kind == "call" and o.call.name.endswith("str>::len") for o in flow.origins(f, y)):
+                for (a2, b2) in split_add(x):
+                    if is_match_sum(a2, b2):
+                        return "position just behind a str needle found by memstr (UTF-8 is self-synchronising)"
+    return None
+
+
+def _range_start(f, idx):
+    """the start operand of a `a..` / `a..b` range expression (or the operand itself for split_at)"""
+    for o in (flow.origins(f, idx) if "c" not in idx else []):
+        if o.kind == "agg" and (o.rv.get("adt") or "").startswith("core::ops::range::Range") and o.rv["ops"]:
+            return o.rv["ops"][0]
+    return idx
+
+
 def check_str_slices(ctx, prog, rule="C01.P7.slice-offset-comes-from-the-text", files=None, floor=40, tag=""):
     n = 0
     for f in prog.fns.values():
@@ -304,7 +349,7 @@ def check_str_slices(ctx, prog, rule="C01.P7.slice-offset-comes-from-the-text", 
             reasons = []
             bad = []
             for what, o, partner in comps:
-                ev = path_evidence(prog, f, c.bb) or finder_evidence(f, partner)
+                ev = path_evidence(prog, f, c.bb) or finder_evidence(f, partner) or needle_match_evidence(f, _range_start(f, idx))
                 if ev:
                     reasons.append("%s: %s" % (what, ev))
                 elif key in REVIEWED_SLICES:
